@@ -94,6 +94,9 @@ def gen_acl(rng, tier, seed):
         'ctrl': ctrl, 'transport': transport, 'profile': rng.choice(PROFILE_NAMES),
         'refragment': [rng.choice([0, 0, 1, 5, 27, 100]) if faults_on else 0 for _ in range(2)],
         'ops': ops, 'bystander': bystander,
+        # a controller that batches its completion reports: each event also names a handle that has no ACL queue (what a SCO link
+        # looks like to the data path), listed first, with a count of zero
+        'nocp_batch': rng.random() < 0.25,
     }
 
 
@@ -155,8 +158,8 @@ class AclMonitor:
                 self.sim.violation_once('aclflight', 'acl:in-flight-exceeds-buffer-count', f'{self.in_flight} in flight, controller advertised {self.adv_num}')
         elif chan == self.chan_in and direction == 'rx' and data[0] == 0x04 and data[1] == 0x13:
             n = data[3]
-            for i in range(n):
-                cnt = struct.unpack_from('<H', data, 4 + 2 * n + 2 * i)[0]
+            for i in range(n):  # (handle, count) pairs
+                cnt = struct.unpack_from('<H', data, 4 + 4 * i + 2)[0]
                 self.in_flight = max(0, self.in_flight - cnt)
 
 
@@ -247,6 +250,22 @@ def run_acl(case):
         for d in range(2):
             if case['refragment'][d]:
                 world[d].c2h.transform = _refragmenter(sim, case['seed'] ^ (d + 1), case['refragment'][d])
+        if case.get('nocp_batch'):
+            def batch(packet: bytes, inner=None):
+                if len(packet) >= 4 and packet[0] == 0x04 and packet[1] == 0x13:
+                    k = packet[3]
+                    pairs = [struct.unpack_from('<HH', packet, 4 + 4 * i) for i in range(k)]  # (handle, count) pairs
+                    pairs = [(0x0EEE, 0)] + pairs
+                    body = bytes([len(pairs)]) + b''.join(struct.pack('<HH', h, c) for h, c in pairs)
+                    sim.fault('completion_report_batched_behind_a_foreign_handle')
+                    return [bytes([0x04, 0x13, len(body)]) + body]
+                return [packet]
+            for d in range(2):
+                prev = world[d].c2h.transform
+                if prev is None:
+                    world[d].c2h.transform = batch
+                else:
+                    world[d].c2h.transform = lambda pkt, prev=prev: [q for p in prev(pkt) for q in batch(p)]
         expected = [[], [], []]
         counter = [0]
         shape = []
